@@ -255,7 +255,7 @@ fn c14(ntokens: usize, droppers: usize) {
         if spurious { spurious_left -= 1; }
         if flag.woken.swap(false, Ordering::SeqCst) || spurious {
             flag = Arc::new(Flag { woken: AtomicBool::new(false), wakes: AtomicUsize::new(0) });
-            let w = Waker::from(flag.clone());
+            let w = yielding_waker(flag.clone());
             let mut cx = Context::from_waker(&w);
             if fut.as_mut().poll(&mut cx).is_ready() {
                 if begun.load(Ordering::SeqCst) < ntokens { violation("C14", "shutdown future Ready before every token drop had begun"); }
